@@ -219,6 +219,37 @@ def run(ctx):
                 V('recorded-block-refused', "recorded block %d no longer passes full validation after altered copies of recorded "
                   "blocks had been offered (and refused) in the same process: %r" % (h, e), {'k': 'rec'})
                 break
+    # the recorded chain once more on FRESH objects after the earlier ones were dropped (a node does this after a
+    # roll-back and re-download): whatever the implementation remembers about block objects that no longer exist must not
+    # be served for new ones.  Deserialized in a different order in every round, with k filler objects in between, k = 0..R-1.
+    if all(b is not None for b in blocks):
+        import gc
+        R = 3 if ctx.quick else 12
+        ids = seams.recycling_ids()        # id() is address-dependent: the harness owns it (dead objects' ids are reused at once)
+        raws = [raw for (h, hexid, raw) in recorded]
+        del cs, cs2, cs3, blocks, parent
+        b = bb = junk = rival = node = None
+        for k in range(R):
+            gc.collect()
+            ids.pick = k
+            filler = [object() for _ in range(k)]
+            fresh = {}
+            order = list(range(len(raws)))
+            order = order[::-1] if k % 2 == 0 else order[k % len(order):] + order[:k % len(order)]
+            for h in order:
+                fresh[h] = Block.deserialize(raws[h])
+                filler.append([h] * k)
+            csr = CoinState.empty().add_block_no_validation(fresh[0])
+            for h in range(1, len(raws)):
+                n += 1
+                try:
+                    csr = csr.add_block(fresh[h], fresh[h].timestamp)
+                except Exception as e:
+                    V('recorded-block-refused', "recorded block %d fails full validation when the recorded chain is loaded again into "
+                      "fresh objects after the earlier ones were dropped (round %d): %r" % (h, k, e), {'k': 'rec'})
+                    break
+            del csr, fresh, filler
+        ctx.cov['id_calls_by_the_code_under_test'] = ids.calls
     ctx.cov.update({
         'evaluations': n, 'distinct_nontrivial': distinct,
         'rule': "all 327 checkpoint heights x {wrong id, right id, id of the neighbouring checkpoint} x {validate_block_in_"
